@@ -21,7 +21,7 @@ def opCrash : OpFn := fun _ _ out => do
   pure { corr := true, spec := true, nontrivial := true, branch := cls }
 
 def table : List (String × OpFn) :=
-  [("merge", opMerge), ("validate", opValidate), ("rdn", opRdn), ("raw", opRaw), ("validity", opValidity), ("pki", opPki), ("hash", opHash), ("hist", opHist), ("open", opPki), ("pkcs8", opPkcs8), ("pemfile", opPemFile), ("ext", opExt), ("crash", opCrash), ("fsops", opFs), ("cli", opCli)]
+  [("merge", opMerge), ("validate", opValidate), ("rdn", opRdn), ("raw", opRaw), ("serial", opSerial), ("validity", opValidity), ("pki", opPki), ("hash", opHash), ("hist", opHist), ("open", opPki), ("pkcs8", opPkcs8), ("pemfile", opPemFile), ("ext", opExt), ("crash", opCrash), ("fsops", opFs), ("cli", opCli)]
 
 def handleLine (view : String) (line : String) : String :=
   match Json.parse line with
